@@ -122,7 +122,7 @@ def gen_count(rng):
     if r < 0.6:
         return 1.0
     if r < 0.85:
-        return round(rng.uniform(0.01, 30), rng.randint(1, 4))
+        return max(round(rng.uniform(0.01, 30), rng.randint(1, 4)), 0.01)   # never 0: counts are positive
     return rng.choice([0.5, 0.25, 1e-3, 100.0, 1000.0, 2.5, 1.0000001])
 
 
@@ -259,6 +259,15 @@ def number_density(pt, atoms, density):
     return n / (m / density / avogadro_number * 1e24)
 
 
+def re_scale(N, tot):
+    """the size a real SLD has when nothing cancels: 10·N·sqrt(σ_s/(4π/100)) (tot = N·σ_s).  The real
+    part Σ n_k Re b_k can cancel exactly (e.g. 6 B[10] + 0.125 Pt: −1.2 + 1.2), leaving a 1e-19
+    rounding residue; it is therefore compared with the absolute tolerance 1e-12·re_scale."""
+    if not (N > 0 and tot > 0):
+        return 0.0
+    return 10.0 * math.sqrt(N * tot / C4PI100)
+
+
 def inc_close(rho_a, rho_b, N, tot, rel=1e-9):
     """ρ_inc = 10·N·sqrt(σ_i/(4π/100)) compared through σ_i: N·σ_i = (4π/100)·ρ_inc²/(100·N) must
     agree within 1e-12·N·σ_s absolutely (the cancellation residue of σ_s − σ_c) or relatively"""
@@ -280,10 +289,12 @@ def scat_close(a, b, N, rel=1e-9):
     (`inc_close`).  `N` is the number density of the case (scales the tolerance only)."""
     if isinstance(a, str) or isinstance(b, str):
         return a == b
-    for i in (0, 1, 3, 4, 6):
+    tot = max(sigma_total_xs(a), sigma_total_xs(b))            # Σ_s = N σ_s   (1/cm)
+    if not close(a[0], b[0], rel=rel, abs_=max(1e-300, 1e-12 * re_scale(N, tot))):
+        return False
+    for i in (1, 3, 4, 6):
         if not close(a[i], b[i], rel=rel, abs_=1e-300):
             return False
-    tot = max(sigma_total_xs(a), sigma_total_xs(b))            # Σ_s = N σ_s   (1/cm)
     if not (close(a[5], b[5], rel=rel) or abs(a[5] - b[5]) <= 1e-12 * tot):
         return False
     return inc_close(a[2], b[2], N, tot, rel)
@@ -293,8 +304,8 @@ def sld_close(a, b, N, tot, rel=1e-9):
     """3-tuples (re, im, inc) of SLDs; `tot` = N·σ_s of the case"""
     if isinstance(a, str) or isinstance(b, str):
         return a == b
-    return close(a[0], b[0], rel=rel, abs_=1e-300) and close(a[1], b[1], rel=rel, abs_=1e-300) \
-        and inc_close(a[2], b[2], N, tot, rel)
+    return close(a[0], b[0], rel=rel, abs_=max(1e-300, 1e-12 * re_scale(N, tot))) \
+        and close(a[1], b[1], rel=rel, abs_=1e-300) and inc_close(a[2], b[2], N, tot, rel)
 
 
 # --------------------------------------------------------------------------- the oracle
@@ -439,6 +450,8 @@ class Oracle:
                 ok = close(g, w, rel=rel) or abs(g - w) <= 1e-12 * float(N * sig_s)
             elif name == "sld_inc":
                 ok = inc_close(g, w, float(N), float(N * sig_s), rel)
+            elif name == "sld_re":
+                ok = close(g, w, rel=rel, abs_=max(1e-300, 1e-12 * re_scale(float(N), float(N * sig_s))))
             else:
                 ok = close(g, w, rel=rel, abs_=1e-300)
             if not ok:
